@@ -4,6 +4,7 @@ use std::io::{BufRead, BufWriter, Write};
 
 mod util;
 mod lexical;
+mod literal;
 mod dump;
 
 fn main() {
@@ -42,6 +43,7 @@ fn main() {
 fn dispatch(t: &[&str]) -> String {
     match t[0] {
         "esc" | "tok" => lexical::run(t),
+        "lit" => literal::run(t),
         other => format!("UNKNOWN-OP {}", other),
     }
 }
